@@ -114,9 +114,18 @@ func runScenario(k *hubkit.Kit, c *Case, dist map[string]int) map[uint64]*peerIn
 	peers := map[uint64]*peerInfo{}
 	var order []*hubkit.Peer
 	path := "/session/" + c.Topic
-	for i := range c.Ops {
+	for i := 0; i < len(c.Ops); i++ {
 		o := &c.Ops[i]
 		switch o.K {
+		case "storm-begin":
+			j := i + 1
+			for j < len(c.Ops) && c.Ops[j].K != "storm-end" {
+				j++
+			}
+			if !runStorm(k, c, i+1, j, peers, dist) {
+				return peers
+			}
+			i = j
 		case "join":
 			buf := 0
 			if o.Slow {
@@ -226,6 +235,11 @@ func runScenario(k *hubkit.Kit, c *Case, dist map[string]int) map[uint64]*peerIn
 			if !has(pi.scopes, "read") {
 				c.Discard = "nonreader-cut"
 			}
+			for _, o := range c.Ops {
+				if o.K == "send" && o.Size < headerLen {
+					c.Discard = "cut-in-scenario-with-tiny-messages" // their symbols do not identify them
+				}
+			}
 		}
 		for _, f := range s.Frames {
 			if len(f.Syms) > 1 {
@@ -243,6 +257,161 @@ func runScenario(k *hubkit.Kit, c *Case, dist map[string]int) map[uint64]*peerIn
 	}
 	hubkit.KeepAlive(order)
 	return peers
+}
+
+// runStorm lets every writer of ops[lo:hi] send its messages back to back from its own goroutine,
+// then confirms with one ping-pong per writer that the relay's reader has handed all of them on.
+func runStorm(k *hubkit.Kit, c *Case, lo, hi int, peers map[uint64]*peerInfo, dist map[string]int) bool {
+	byWriter := map[uint64][]int{}
+	var ws []uint64
+	for i := lo; i < hi; i++ {
+		if c.Ops[i].K == "send" {
+			if _, ok := byWriter[c.Ops[i].N]; !ok {
+				ws = append(ws, c.Ops[i].N)
+			}
+			byWriter[c.Ops[i].N] = append(byWriter[c.Ops[i].N], i)
+		}
+	}
+	acks := make([]bool, len(ws))
+	done := make(chan int, len(ws))
+	for wi, wn := range ws {
+		go func(wi int, wn uint64) {
+			p := peers[wn].p
+			ok := true
+			for _, i := range byWriter[wn] {
+				o := c.Ops[i]
+				if sent, _ := k.Send(p, o.MT, makeMsg(o), false); !sent {
+					ok = false
+					break
+				}
+			}
+			acks[wi] = ok && k.Barrier(p)
+			done <- wi
+		}(wi, wn)
+	}
+	for range ws {
+		<-done
+	}
+	for wi, wn := range ws {
+		if !acks[wi] {
+			c.Discard = "storm-writer-cut"
+			return false
+		}
+		for _, i := range byWriter[wn] {
+			c.Ops[i].Ack = true
+			dist[fmt.Sprintf("send:size-%s", sizeClass(c.Ops[i].Size))]++
+			dist["send:in-storm"]++
+		}
+	}
+	return true
+}
+
+// hubOrder returns the indices of c.Ops in the order the hub processed them: the script order,
+// except inside a storm, where the order is a linear extension of (a) each writer's own order,
+// (b) the order in which each reader saw the messages, (c) "what a reader did not see comes after
+// everything it saw". The true hub order satisfies all three; any linear extension gives every
+// reader the same stream, so it is as good a witness.
+func hubOrder(c *Case) []int {
+	var order []int
+	symToOp := map[uint64]int{}
+	for i, o := range c.Ops {
+		if o.K == "send" && o.Size >= headerLen {
+			symToOp[o.ID] = i
+		}
+	}
+	for i := 0; i < len(c.Ops); i++ {
+		if c.Ops[i].K != "storm-begin" {
+			order = append(order, i)
+			continue
+		}
+		j := i + 1
+		for j < len(c.Ops) && c.Ops[j].K != "storm-end" {
+			j++
+		}
+		in := map[int]bool{}
+		for x := i + 1; x < j; x++ {
+			if c.Ops[x].K == "send" {
+				in[x] = true
+			}
+		}
+		succ := map[int][]int{}
+		indeg := map[int]int{}
+		edge := func(a, b int) {
+			succ[a] = append(succ[a], b)
+			indeg[b]++
+		}
+		lastOf := map[uint64]int{}
+		for x := i + 1; x < j; x++ {
+			if in[x] {
+				if l, ok := lastOf[c.Ops[x].N]; ok {
+					edge(l, x)
+				}
+				lastOf[c.Ops[x].N] = x
+			}
+		}
+		for _, s := range c.Seen {
+			if !has(s.Scopes, "read") {
+				continue
+			}
+			prev := -1
+			sawn := map[int]bool{}
+			for _, f := range s.Frames {
+				for _, sym := range f.Syms {
+					if x, ok := symToOp[sym]; ok && in[x] {
+						if prev >= 0 {
+							edge(prev, x)
+						}
+						prev = x
+						sawn[x] = true
+					}
+				}
+			}
+			if prev >= 0 {
+				for x := range in {
+					if !sawn[x] && c.Ops[x].N != s.N {
+						edge(prev, x)
+					}
+				}
+			}
+		}
+		// Kahn, smallest script index first
+		ready := []int{}
+		for x := i + 1; x < j; x++ {
+			if in[x] && indeg[x] == 0 {
+				ready = append(ready, x)
+			}
+		}
+		var seg []int
+		for len(ready) > 0 {
+			mi := 0
+			for q := range ready {
+				if ready[q] < ready[mi] {
+					mi = q
+				}
+			}
+			x := ready[mi]
+			ready = append(ready[:mi], ready[mi+1:]...)
+			seg = append(seg, x)
+			for _, y := range succ[x] {
+				indeg[y]--
+				if indeg[y] == 0 {
+					ready = append(ready, y)
+				}
+			}
+		}
+		if len(seg) != len(in) { // readers disagree about the order: no single hub order explains them
+			c.Note += "storm: observed orders are cyclic; "
+			seg = seg[:0]
+			for x := i + 1; x < j; x++ {
+				if in[x] {
+					seg = append(seg, x)
+				}
+			}
+		}
+		order = append(order, seg...)
+		i = j
+	}
+	return order
 }
 
 func sizeClass(n int) string {
